@@ -19,7 +19,7 @@ PROP = "C13"
 
 def plan(tier, seed):
     shards = [{"kind": "enum", "part": i, "parts": 8} for i in range(8)]
-    k = 40 if tier == "quick" else 800
+    k = 96 if tier == "quick" else 800
     shards += [{"kind": "variants", "seed": seed, "shard": i, "n": 250} for i in range(k)]
     shards += [{"kind": "corrupt", "seed": seed, "shard": i, "n": 400} for i in range(k)]
     shards += [{"kind": "mcp", "seed": seed, "shard": i, "n": 40} for i in range(8 if tier == "quick" else 100)]
